@@ -35,8 +35,6 @@ class DefaultWorker(Worker):
 
         # connect to the master queues
         self._res_put = ru.zmq.Putter('result',  self._res_addr_put)
-        self._req_get = ru.zmq.Getter('request', self._req_addr_get,
-                                                 cb=self._request_cb)
 
         # the master should have stored our own task description in the registry
         self._descr = self._reg['raptor.%s.cfg' % self._uid] or {}
@@ -68,6 +66,11 @@ class DefaultWorker(Worker):
         self._result_thread = mt.Thread(target=self._result_watcher)
         self._result_thread.daemon = True
         self._result_thread.start()
+
+        # only now start to accept requests: the request callback needs the
+        # state initialized above
+        self._req_get = ru.zmq.Getter('request', self._req_addr_get,
+                                                 cb=self._request_cb)
 
 
     # --------------------------------------------------------------------------
